@@ -216,18 +216,7 @@ UNITS += [
     Unit(name="restore_write_blob", file=RS, kind="block", within="fn restore_contents<S: Open>(",
          anchor="@closure:s1.spawn(move |_|",
          block_sig="fn restore_write_blob(dest: &VDest, filenames: &Vec<DestPath>, sizes: &mut Vec<u64>, file_idx: usize, start: u64, data: BytesW, is_sparse: bool, size: u64, bl: &BlobLocation, p: &ProgressW, fs: &mut DestFs, Ghost(planned): Ghost<Seq<u64>>)",
-         block_tail="",
-         functions=["commands::restore::restore_contents (per-destination task: allocate on first touch, write the blob at its offset; sparse skip)"],
-         rewrites=[
-             Rw("let mut sizes_guard = sizes.lock().unwrap();", "let sizes_guard = sizes;", why="Mutex guard -> the guarded vector itself (mutual exclusion ASSUMED)"),
-             Rw("sizes_guard[file_idx] = 0;", "sizes_guard.set(file_idx, 0);", why="IndexMut on Vec -> Vec::set"),
-             Rw("drop(sizes_guard);", "", why="guard release: no effect on the sequential model"),
-             Rw(r"(?P<v>\w+)\.length\.into\(\)", r"(\g<v>.length as u64)", regex=True, count=None, optional=True, why="u32 -> u64 conversion -> cast"),
-             Rw(r"dest\.set_length\(path, ([^;]*?)\)\.unwrap\(\);", r"dest.vset_length(path, \1, fs);", regex=True, why="LocalDestination::set_length + unwrap -> ghost file-system stub (failure panics the worker)"),
-             Rw(r"dest\.write_at\(path, ([^;]*?), &data\)\.unwrap\(\);", r"dest.vwrite_at(path, \1, &data, fs);", regex=True, why="LocalDestination::write_at + unwrap -> ghost file-system stub"),
-             Rw(r"dest\s*\.read_at\(path, (?P<o>[^,]+), (?P<l>[^;]*?)\)\s*\.is_ok_and\(\|old\| old\.iter\(\)\.all\(\|&b\| b == 0\)\)", r"dest.vreads_as_zeros(path, \g<o>, \g<l>, fs)", regex=True, why="read_at + all-bytes-zero test (closure) -> stub: true only if the range reads as zeros"),
-         ],
-         hints=[("before", "p.inc(size);", """                                proof {
+         block_tail="""                                proof {
                                     // explicit instantiations (the proof must not depend on the solver's choice of triggers)
                                     let k = filenames@[file_idx as int].key@;
                                     assert forall|i: int| 0 <= i < filenames@.len() && i != file_idx implies (#[trigger] filenames@[i]).key@ != k by {
@@ -241,7 +230,17 @@ UNITS += [
                                             assert(sizes_guard@[i] == old(sizes)@[i]);
                                         }
                                     }
-                                }""")],
+                                }""",
+         functions=["commands::restore::restore_contents (per-destination task: allocate on first touch, write the blob at its offset; sparse skip)"],
+         rewrites=[
+             Rw("let mut sizes_guard = sizes.lock().unwrap();", "let sizes_guard = sizes;", why="Mutex guard -> the guarded vector itself (mutual exclusion ASSUMED)"),
+             Rw("sizes_guard[file_idx] = 0;", "sizes_guard.set(file_idx, 0);", why="IndexMut on Vec -> Vec::set"),
+             Rw("drop(sizes_guard);", "", why="guard release: no effect on the sequential model"),
+             Rw(r"(?P<v>\w+)\.length\.into\(\)", r"(\g<v>.length as u64)", regex=True, count=None, optional=True, why="u32 -> u64 conversion -> cast"),
+             Rw(r"dest\.set_length\(path, ([^;]*?)\)\.unwrap\(\);", r"dest.vset_length(path, \1, fs);", regex=True, why="LocalDestination::set_length + unwrap -> ghost file-system stub (failure panics the worker)"),
+             Rw(r"dest\.write_at\(path, ([^;]*?), &data\)\.unwrap\(\);", r"dest.vwrite_at(path, \1, &data, fs);", regex=True, why="LocalDestination::write_at + unwrap -> ghost file-system stub"),
+             Rw(r"dest\s*\.read_at\(path, (?P<o>[^,]+), (?P<l>[^;]*?)\)\s*\.is_ok_and\(\|old\| old\.iter\(\)\.all\(\|&b\| b == 0\)\)", r"dest.vreads_as_zeros(path, \g<o>, \g<l>, fs)", regex=True, why="read_at + all-bytes-zero test (closure) -> stub: true only if the range reads as zeros"),
+         ],
          contract="""
     requires
         file_idx < filenames@.len(),
